@@ -255,6 +255,16 @@ def stream_jobs(tier):
                              ('readuntil(nl),readexactly(3)', [('readuntil', b'\n'), ('readexactly', 3)])):
             for pkt in (7, 32):
                 jobs.append((dict(name=sname, S=S, pkt=pkt, win=64, cname=cname, calls=calls), bound))
+    # a read served from a full buffer, followed by a separator search (state carried between two calls)
+    for sname, S in (('full-then-line', b'A' * 64 + b'BBBB\ntail\n'), ('full-then-line-2', b'A' * 70 + b'\n' + b'C' * 64 + b'DD\nz\n'),
+                     ('full-no-nl', b'A' * 64 + b'B' * 30)):
+        for cname, calls in (('readexactly(60),readline', [('readexactly', 60), ('readline',)]),
+                             ('read(10),readline', [('read', 10), ('readline',)]),
+                             ('readexactly(64),readuntil(nl)', [('readexactly', 64), ('readuntil', b'\n')]),
+                             ('readexactly(40),readline,read(5)', [('readexactly', 40), ('readline',), ('read', 5)]),
+                             ('readexactly(1),readuntil(nl)', [('readexactly', 1), ('readuntil', b'\n')])):
+            for pkt in (7, 32, 64):
+                jobs.append((dict(name=sname, S=S, pkt=pkt, win=64, cname=cname, calls=calls), bound))
     # text mode with multi-byte characters
     T = 'aé\n€b\U0001d11e\nz'
     for cname, calls in (('readline', [('readline',)]), ('read(1)', [('read', 1)]), ('readexactly(2)', [('readexactly', 2)]),
@@ -608,8 +618,133 @@ def late_redirect_jobs(tier):
     return [jobs[i::32] for i in range(32)]
 
 
+# ------------------------------------------------------------------ (c'') one process's output stream becomes another's stdin, at any moment
+def pipe_run(cfg, chooser):
+    """Process A produces stdout and stderr; after k deliveries the application (optionally reads n units of the
+    chosen stream and then) makes that stream the stdin of process B -- at creation or by redirect_stdin.
+    B must receive exactly the rest of that stream; A's other stream must stay complete."""
+    which, k, preread, via = cfg['which'], cfg['k'], cfg['preread'], cfg['via']
+    out_data = bytes((i * 7 + 1) % 251 for i in range(90))
+    err_data = bytes((i * 5 + 3) % 241 for i in range(80))
+    loop = P.fresh(0)
+    P.install_wire_labels()
+    viol = []
+    try:
+        async def handler(process):
+            if process.command == 'sink':
+                got = await process.stdin.read()
+                process.stdout.write(got)
+                process.exit(0)
+                return
+            process.stdout.write(out_data[:40])
+            process.stderr.write(err_data[:40])
+            process.stdout.write(out_data[40:])
+            process.stderr.write(err_data[40:])
+            process.exit(7)
+        pair = P.Pair(loop, sopts=dict(process_factory=handler, encoding=None))
+        pair.handshake()
+        st, pre, res = {}, {}, {}
+
+        async def client():
+            st['a'] = await pair.c.create_process('src', encoding=None, window=64, max_pktsize=32)
+            if via == 'redirect':
+                st['b'] = await pair.c.create_process('sink', encoding=None)
+        t = loop.create_task(client())
+
+        async def connect():
+            a = st['a']
+            rd = a.stdout if which == 'stdout' else a.stderr
+            if preread:
+                pre['data'] = await rd.readexactly(preread)
+            if via == 'redirect':
+                await st['b'].redirect_stdin(rd)
+            else:
+                st['b'] = await pair.c.create_process('sink', stdin=rd, encoding=None)
+        steps = 0
+        rt = None
+        while True:
+            loop.quiesce()
+            if rt is None and t.done() and steps >= k:
+                rt = loop.create_task(connect())
+                loop.quiesce()
+            opts = [x for x in (pair.ct, pair.st) if x in loop.deliverable()]
+            if not opts:
+                if rt is None and t.done():
+                    rt = loop.create_task(connect())
+                    continue
+                break
+            kk = chooser.choose(len(opts), label='deliver') if len(opts) > 1 else 0
+            P.deliver_packet(loop, opts[kk])
+            if t.done():
+                steps += 1
+            if steps > 5000:
+                raise Livelock('too many deliveries')
+
+        async def finish():
+            res['a'] = await st['a'].wait()
+            res['b'] = await st['b'].wait()
+        ft = loop.create_task(finish())
+        loop.flush_all(horizon=200000)
+        want = out_data if which == 'stdout' else err_data
+        other_want = err_data if which == 'stdout' else out_data
+        if rt is None or not rt.done():
+            viol.append(('pipe-hangs', 'connecting the processes never finished'))
+        elif rt.exception() is not None:
+            if not (preread and isinstance(rt.exception(), asyncio.IncompleteReadError)):
+                viol.append(('pipe-raised', repr(rt.exception())))
+        elif not ft.done():
+            viol.append(('wait-hangs', 'wait() pending'))
+        elif ft.exception() is not None:
+            viol.append(('wait-raised', repr(ft.exception())))
+        else:
+            p = pre.get('data', b'')
+            got = res['b'].stdout
+            other = res['a'].stderr if which == 'stdout' else res['a'].stdout
+            left = res['a'].stdout if which == 'stdout' else res['a'].stderr
+            if p + got != want:
+                viol.append(('pipe-data', 'process B received %d bytes, the %s of A holds %d after the %d read before; first difference at %d'
+                             % (len(got), which, len(want) - len(p), len(p),
+                                next((i for i, (x, y) in enumerate(zip(p + got, want)) if x != y), min(len(p + got), len(want))))))
+            if other != other_want:
+                viol.append(('pipe-other-stream', 'the stream of A that was not piped delivered %d of %d bytes' % (len(other or b''), len(other_want))))
+            if left:
+                viol.append(('pipe-data', '%d bytes of the piped stream came back through A.wait()' % len(left)))
+        if loop.unretrieved():
+            viol.append(('loop-exception', repr(loop.exc_log[0].get('exception'))[:200]))
+        return {'viol': viol, 'steps': steps}
+    except Livelock as exc:
+        return {'viol': [('livelock', str(exc))], 'steps': 0}
+    finally:
+        P.done(loop)
+
+
+def pipe_worker(job):
+    acc = core.Acc()
+    for cfg, bound in job:
+        name = 'pipe|%(which)s|%(via)s|k=%(k)d|pre=%(preread)d' % cfg
+
+        def check(obs, ch, cfg=cfg, name=name):
+            acc.add(core.digest((name, tuple(ch.choices))), transitions=obs['steps'],
+                    sample={'pipe': cfg} if cfg['k'] == 5 and cfg['which'] == 'stderr' and not ch.choices else None)
+            for k, d in obs['viol']:
+                acc.violation('process:%s:%s-%s' % (k, cfg['which'], cfg['via']), '%s ; %s' % (d, name),
+                              {'kind': 'pipe', 'cfg': cfg, 'choices': ch.choices})
+        core.explore_dfs(lambda ch, cfg=cfg: pipe_run(cfg, ch), bound, check)
+    return acc
+
+
+def pipe_jobs(tier):
+    jobs = []
+    for which in ('stdout', 'stderr'):
+        for via in ('create', 'redirect'):
+            for preread in (0, 4):
+                for k in range(0, 16):
+                    jobs.append((dict(which=which, via=via, k=k, preread=preread), 0 if tier == 'quick' else 1))
+    return [jobs[i::16] for i in range(16)]
+
+
 # ------------------------------------------------------------------ (d) drain
-def drain_run(chooser, cut_at=None):
+def drain_run(chooser, cut_at=None, limits=(100, 20)):
     loop = P.fresh(0)
     P.install_wire_labels()
     try:
@@ -617,15 +752,18 @@ def drain_run(chooser, cut_at=None):
             await process.stdin.read()          # never reads until EOF: relies on window only
         pair = P.Pair(loop, sopts=dict(process_factory=handler, encoding=None, window=64, max_pktsize=32))
         pair.handshake()
-        info = {}
+        info = {'drains': 0}
 
         async def client():
             w, r, e = await pair.c.open_session('x', encoding=None)
-            w.channel.set_write_buffer_limits(high=100, low=20)
-            w.write(b'z' * 400)
+            info['chan'] = w.channel
+            w.channel.set_write_buffer_limits(high=limits[0], low=limits[1])
             try:
-                await w.drain()
-                info['drained'] = (w.channel._send_buf_len, w.channel._send_state)
+                for _ in range(2):
+                    w.write(b'z' * 400)
+                    await w.drain()
+                    info['drains'] += 1
+                    info['drained'] = (w.channel._send_buf_len, w.channel._send_state)
             except Exception as exc:        # pylint: disable=broad-except
                 info['exc'] = type(exc).__name__
         t = loop.create_task(client())
@@ -643,34 +781,43 @@ def drain_run(chooser, cut_at=None):
             P.deliver_packet(loop, opts[k])
             steps += 1
         viol = []
+        high = limits[0]
         if cut_at is not None:
             if not t.done():
                 viol.append(('drain-hangs', 'drain() still pending after the connection was lost at step %d' % cut_at))
-            elif 'drained' in info and info['drained'][0] > 100:
+            elif 'drained' in info and info['drained'][0] > high and 'exc' not in info:
                 viol.append(('drain-returned-early', 'drain() returned with %d bytes buffered after connection loss without error' % info['drained'][0]))
         else:
-            if 'drained' in info and info['drained'][0] > 100:
-                viol.append(('drain-returned-early', 'drain() returned with %d bytes still buffered (high water 100)' % info['drained'][0]))
+            if 'drained' in info and info['drained'][0] > high:
+                viol.append(('drain-returned-early', 'drain() returned with %d bytes still buffered (high water %d)' % (info['drained'][0], high)))
+            if not t.done():
+                ch = info.get('chan')
+                viol.append(('drain-hangs', 'every packet was delivered and the peer keeps reading, but drain() #%d never returned '
+                             '(send buffer %s bytes, write-buffer limits high=%r low=%r)' % (info['drains'] + 1, ch._send_buf_len if ch else '?', limits[0], limits[1])))
+        info.pop('chan', None)
         return {'viol': viol, 'steps': steps, 'info': info}
     finally:
         P.done(loop)
 
 
+DRAIN_LIMITS = [(100, 20), (100, 0), (0, 0), (64, 64), (1000, None)]
+
+
 def drain_worker(_job):
     acc = core.Acc()
-
-    def check(obs, ch):
-        acc.add(core.digest(('drain', tuple(ch.choices), repr(obs['info']))), transitions=obs['steps'])
-        for k, d in obs['viol']:
-            acc.violation('process:%s' % k, d, {'kind': 'drain', 'choices': ch.choices})
-    core.explore_dfs(lambda ch: drain_run(ch), 2, check)
-    base = drain_run(core.Chooser([]))
-    for cut in range(0, base['steps'] + 1):
-        obs = drain_run(core.Chooser([]), cut_at=cut)
-        acc.add(core.digest(('drain-cut', cut, repr(obs['info']))), transitions=obs['steps'],
-                sample={'drain_cut_at': cut, 'outcome': obs['info']} if cut == 3 else None)
-        for k, d in obs['viol']:
-            acc.violation('process:%s' % k, d, {'kind': 'drain-cut', 'cut': cut})
+    for limits in DRAIN_LIMITS:
+        def check(obs, ch, limits=limits):
+            acc.add(core.digest(('drain', limits, tuple(ch.choices), repr(obs['info']))), transitions=obs['steps'])
+            for k, d in obs['viol']:
+                acc.violation('process:%s' % k, d, {'kind': 'drain', 'choices': ch.choices, 'limits': list(limits)})
+        core.explore_dfs(lambda ch, limits=limits: drain_run(ch, limits=limits), 2 if limits == (100, 20) else 1, check)
+        base = drain_run(core.Chooser([]), limits=limits)
+        for cut in range(0, base['steps'] + 1):
+            obs = drain_run(core.Chooser([]), cut_at=cut, limits=limits)
+            acc.add(core.digest(('drain-cut', limits, cut, repr(obs['info']))), transitions=obs['steps'],
+                    sample={'drain_cut_at': cut, 'limits': list(limits), 'outcome': obs['info']} if cut == 3 and limits == (100, 0) else None)
+            for k, d in obs['viol']:
+                acc.violation('process:%s' % k, d, {'kind': 'drain-cut', 'cut': cut, 'limits': list(limits)})
     return acc
 
 
@@ -689,6 +836,7 @@ def main(tier, seed):
     acc.merge(core.pmap(exit_worker, [orders[i::16] for i in range(16)]))
     acc.merge(core.pmap(redirect_worker, [0]))
     acc.merge(core.pmap(late_redirect_worker, late_redirect_jobs(tier)))
+    acc.merge(core.pmap(pipe_worker, pipe_jobs(tier)))
     acc.merge(core.pmap(drain_worker, [0]))
     shutil.rmtree(SCRATCH, ignore_errors=True)
     rule = ('(a) 7 byte streams + a 3-window stream + a multi-byte text stream x 15 read-call menus (read n / -1 / 0, '
@@ -697,7 +845,9 @@ def main(tier, seed):
             'stdout/stderr data, EOF, exit-status|exit-signal before CLOSE from the independent peer; (c) 9 '
             'redirection kinds, and stdout/stderr of a running process redirected to a path / file / other process / DEVNULL '
             'after every number 0..25 of packet deliveries (stream buffer empty, full with the channel paused, after '
-            'EOF, after exit), with and without a read before; (d) drain under all delivery orders (bound 2) and connection loss at every step'
+            'EOF, after exit), with and without a read before; stdout or stderr of one process made the stdin of another '
+            '(at creation or by redirect_stdin) after every number 0..15 of deliveries; (d) two write+drain rounds under 5 write-buffer limit settings (incl. low-water 0 and high 0), all delivery '
+            'orders within the bound, and connection loss at every step'
             % len(orders))
     return core.finish(PROP, tier, seed, 'model_checking', acc, t0, rule,
                        {'stream_execs': n_a, 'exit_orders': len(orders), 'deviation_bound': 2 if tier == 'quick' else 3},
@@ -720,6 +870,8 @@ def replay(rep):
         acc = full
     elif r['kind'] == 'exit':
         acc = exit_worker([tuple(r['order'])])
+    elif r['kind'] == 'pipe':
+        acc = pipe_worker([(r['cfg'], 0)])
     elif r['kind'] == 'late-redirect':
         acc = late_redirect_worker([(r['cfg'], 0)])
     elif r['kind'] == 'redirect':
